@@ -104,7 +104,10 @@ func runCut(c *mc.Ctx, p cutParams) {
 			last.FromBlock = from - 3
 		}
 	case 2:
-		last = &types.CertificateHeader{Height: 3, FromBlock: from, ToBlock: to, Status: agglayertypes.InError,
+		// the failed certificate started at the same block and ended anywhere up to what is synced now (the chain
+		// may have grown since it was built)
+		failedTo := from + uint64(c.Choose(int(to-from)+1, "last-block-of-the-failed-certificate"))
+		last = &types.CertificateHeader{Height: 3, FromBlock: from, ToBlock: failedTo, Status: agglayertypes.InError,
 			RetryCount: 1, CertType: ct}
 		wantRetry = 2
 	}
